@@ -332,6 +332,7 @@ func driverMain() int {
 		"replay_checks":                 tot.ReplayChecks,
 		"diverged_discarded":            tot.Diverged,
 		"step_caps":                     tot.StepCaps,
+		"abandoned_hung_executions":     tot.Abandoned,
 		"inconclusive":                  inconclusive,
 		"known_findings_hit":            tot.Known,
 		"flags":                         tot.Flags,
@@ -368,7 +369,12 @@ func driverMain() int {
 	}
 	b, _ := json.MarshalIndent(ev, "", " ")
 	_ = os.MkdirAll(filepath.Join(verifDir(), "evidence"), 0o755)
-	if err := os.WriteFile(filepath.Join(verifDir(), "evidence", id+".json"), b, 0o644); err != nil {
+	evPath := filepath.Join(verifDir(), "evidence", id+".json")
+	if os.Getenv("VERIF_NO_EVIDENCE") != "" {
+		// self tests against deliberately broken scratch trees must not overwrite evidence
+		evPath = filepath.Join(tmp, "evidence.json")
+	}
+	if err := os.WriteFile(evPath, b, 0o644); err != nil {
 		fmt.Fprintln(os.Stderr, err)
 		return 2
 	}
@@ -421,6 +427,7 @@ func mergeStats(a, b *Stats) {
 	a.Diverged += b.Diverged
 	a.ReplayChecks += b.ReplayChecks
 	a.StepCaps += b.StepCaps
+	a.Abandoned += b.Abandoned
 	a.Incomplete = append(a.Incomplete, b.Incomplete...)
 	for k := range b.Outcomes {
 		a.Outcomes[k] = true
